@@ -104,6 +104,10 @@ def gen_seq_case(rng, cid, fam):
     def do_poll(c, wait=None):
         if g.pending.get(c):
             return
+        if fam == "hb":
+            # give the heartbeat goroutine that the previous poll started the time to register its signal
+            # before this poll pops it (the other order is the forced scenario heartbeat-after-repoll)
+            ops.append({"op": "sleep", "ms": 3})
         ops.append({"op": "poll", "c": c})
         r = g.poll(c)
         if wait is None:
@@ -268,6 +272,14 @@ def normalise_log(case, log):
     # noticed but may have run after the timer fired
     amb = False
     tmo = case["timeout_ms"] * MS
+    if case["heartbeat_ms"] < 1000:
+        # with a short heartbeat the verdicts assume that timers fire roughly when they are due; a process
+        # that was not scheduled for a long time (loaded machine) makes the heartbeat overtake the polls
+        for e in out:
+            late = e["t1"] - e["t0"] - (tmo if e["e"] in ("T", "R") else 0) - (
+                (case["heartbeat_ms"] + 80) * MS if e["e"] == "H" else 0)
+            if e["e"] in ("T", "R", "H", "S", "U", "P1", "PM", "PB") and late > 40 * MS:
+                amb = True
     last_l = {}
     for i, e in enumerate(out):
         if e["e"] == "L":
